@@ -75,5 +75,5 @@ Definition model_verdict (c : rcase) : bool * bool :=
 Definition check (c : rcase) : verdict :=
   let '(s, d, g) := spec_verdict c in
   let '(m, modelled) := model_verdict c in
-  mk_verdict m s (d && modelled) g.
+  mk_verdict (m || negb modelled) s (d && modelled) g.
 Definition run (cs : list rcase) := check_all check cs.
